@@ -56,7 +56,7 @@ var ownContentKeys = map[string][]string{
 	"m.room.redaction":          {"redacts", "reason"},
 }
 
-var freeClasses = []string{"imax", "imin", "esc", "obj", "arr", "null"}
+var freeClasses = []string{"imax", "imin", "esc", "obj", "arr", "null", "zero", "estr", "eobj", "earr", "false"}
 
 const keyAlphabet = "abcxyzAZ09._- <&é"
 
@@ -161,8 +161,8 @@ func randomEvent(r *rand.Rand, i int) (traceLine, []byte) {
 	top := map[string]json.RawMessage{"type": json.RawMessage(q(ln.Type)), "content": marshalRawMap(con)}
 	if pdu {
 		top["sender"] = json.RawMessage(q(senderFor(ln.Ver)))
-		top["depth"] = json.RawMessage(fmt.Sprint(1 + r.Intn(1000)))
-		top["origin_server_ts"] = json.RawMessage(fmt.Sprint(1700000000000 + r.Int63n(1000000)))
+		top["depth"] = json.RawMessage(fmt.Sprint(r.Intn(3) * r.Intn(500))) // 0 in about half of the events
+		top["origin_server_ts"] = json.RawMessage(fmt.Sprint(int64(r.Intn(3)) * (850000000000 + r.Int63n(1000000))))
 		top["prev_events"] = refList(ln.Ver, "p1", "p2")
 		top["auth_events"] = refList(ln.Ver, "a1")
 		if r.Float64() < 0.5 {
@@ -224,7 +224,8 @@ func randomEvent(r *rand.Rand, i int) (traceLine, []byte) {
 		ln.Top = append(ln.Top, k)
 	}
 	sort.Strings(ln.Top)
-	ev := marshalRawMap(top)
+	// any spelling of the object: key order, whitespace, escaped key characters (the content keeps the plain one)
+	ev := spellRawMap(top, r.Intn(spellings))
 	ln.Raw = string(ev)
 	return ln, ev
 }
@@ -240,6 +241,21 @@ func redactVia(api, verName string, ev []byte) (observed, error) {
 		p, err := ver.NewEventFromTrustedJSON(ev, false)
 		if err != nil {
 			return observed{}, fmt.Errorf("parse: %w", err)
+		}
+		// through one of the sibling constructors (chosen from the event text, so that a re-execution chooses alike)
+		switch len(ev) % 3 {
+		case 1:
+			if p, err = ver.NewEventFromTrustedJSONWithEventID(p.EventID(), ev, false); err != nil {
+				return observed{}, fmt.Errorf("parse with event ID: %w", err)
+			}
+		case 2:
+			hj, err := p.ToHeaderedJSON()
+			if err != nil {
+				return observed{}, fmt.Errorf("headered: %w", err)
+			}
+			if p, err = gmsl.NewEventFromHeaderedJSON(hj, false); err != nil {
+				return observed{}, fmt.Errorf("parse headered: %w", err)
+			}
 		}
 		p.Redact()
 		out = p.JSON()
